@@ -173,6 +173,11 @@ func SetSymmetricDifference(sets ...cty.Value) (cty.Value, error) {
 func setOperationReturnType(args []cty.Value) (ret cty.Type, err error) {
 	var etys []cty.Type
 	for _, arg := range args {
+		if arg.Type() == cty.DynamicPseudoType {
+			// We can't predict the result type until we know the types
+			// of all of the given sets.
+			return cty.DynamicPseudoType, nil
+		}
 		ty := arg.Type().ElementType()
 
 		// Do not unify types for empty dynamic pseudo typed collections. These
